@@ -38,8 +38,8 @@ func init() {
 				Rule: "case = (Left, Right, n, file info). Lines come from an adversarial alphabet ('', lines starting with - + < > @ space \\\\, '---', '+++', 'diff ', '***', '***************', change-command and hunk-header look-alikes, lines ending in CR, non-ASCII); n in 0..4; empty files, single-line and empty sides. Exhaustive over alphabet 2 x length <= 5 x n in 0..3; random pairs up to 40 lines. " +
 					"For New and for New.AddContext(n).Unify(): Normal/Unified/Context text is produced; the text is parsed by independent reference parsers that count lines by the headers (published format rules) and must describe the original changes at the original ranges; strict reference appliers (no fuzz, no offset, left AND right line numbers checked) must turn Left into Right; mdiff.Read/ReadUnified/ReadGitPatch must return the reference parse (chunk for chunk; one chunk per change command for normal), re-format to identical bytes, and preserve file names and default-format timestamps; the same changes moved down to line numbers around every power of ten up to 10^18 and around 2^31, 2^32, 2^53, 2^62 (really built and applied up to a million lines in front, parsed and read back beyond); every ordered pair of 19 marker-like contents ('-- old', '++ new', '- ', '@@ -1 +1 @@', ...) as last deleted / first inserted line of one change, also through the git wrapper; headers written with non-default time formats (names must survive); parsed patches are kept and verified again after later reads; Diff.Format must equal the format function's output also right after a Format call into a writer that failed. " +
 					"A sample of cases (CR-free alphabet) is also applied with GNU patch (-n/-u/-c) and, for a smaller sample, GNU diff output (normal and -U n) is fed to the readers. " +
-					"A unified read failure is attributed to known finding F5 iff the text has an omitted count and the parse equals the reference parse with End=Start on exactly the omitted-count sides. distinct = hash(Left, Right, n); non-trivial = the diff has a hunk with an empty or single-line side",
-				Required:     []string{"cases", "unified_roundtrips", "normal_roundtrips", "git_roundtrips", "ref_apply_normal", "ref_apply_unified", "ref_apply_context", "empty_range_hunks", "single_line_side_hunks", "fileinfo_roundtrips", "gnu_patch_runs", "gnu_diff_runs", "kept_patches_rechecked", "format_after_failed_write", "large_line_number_cases", "custom_time_format_headers", "marker_like_content_cases", "line_length_sweep_cases"},
+					"A unified read failure is attributed to known finding F5 iff the text has an omitted count and the parse equals the reference parse with End=Start on exactly the omitted-count sides. Seven of every eight blocks run with a local time zone other than UTC (fixed +05:30, -07:00, +13:00, -11:00; Asia/Kolkata, America/Los_Angeles, Europe/London), which are the offsets the header timestamps are written in. distinct = hash(Left, Right, n); non-trivial = the diff has a hunk with an empty or single-line side",
+				Required:     []string{"cases", "unified_roundtrips", "normal_roundtrips", "git_roundtrips", "ref_apply_normal", "ref_apply_unified", "ref_apply_context", "empty_range_hunks", "single_line_side_hunks", "fileinfo_roundtrips", "gnu_patch_runs", "gnu_diff_runs", "kept_patches_rechecked", "format_after_failed_write", "large_line_number_cases", "custom_time_format_headers", "marker_like_content_cases", "line_length_sweep_cases", "blocks_with_a_local_zone_other_than_utc"},
 				Exhaustive:   true,
 				Assumptions:  []string{"reference parsers/appliers written from the GNU diffutils manual's format descriptions", "GNU patch 2.7.x and GNU diff 3.x as installed in this image", "an omitted count means 1 (unified), an empty unified range s,0 sits after line s"},
 				CoverPkgs:    []string{"github.com/creachadair/mds/mdiff"},
@@ -1301,7 +1301,36 @@ func c14randomPair(r *rand.Rand, maxLen int, safe bool) (left, right []string) {
 	return
 }
 
+// c14localZone gives each block (a process of its own) a local time zone: the
+// header timestamps are written in several fixed offsets, and what the reader
+// makes of a timestamp whose offset happens to be the local one must not
+// differ from any other.
+func c14localZone(c *fw.Ctx) {
+	var loc *time.Location
+	switch c.Block % 8 {
+	case 1:
+		loc = time.FixedZone("", 5*3600+1800)
+	case 2:
+		loc = time.FixedZone("", -7*3600)
+	case 3:
+		loc, _ = time.LoadLocation("Asia/Kolkata")
+	case 4:
+		loc = time.FixedZone("", 13*3600)
+	case 5:
+		loc, _ = time.LoadLocation("America/Los_Angeles")
+	case 6:
+		loc = time.FixedZone("", -11*3600)
+	case 7:
+		loc, _ = time.LoadLocation("Europe/London")
+	}
+	if loc != nil {
+		time.Local = loc
+		c.Add("blocks_with_a_local_zone_other_than_utc", 1)
+	}
+}
+
 func runC14(c *fw.Ctx) {
+	c14localZone(c)
 	defer c14recheckKept(c)
 	tools := newC14tools(c)
 	defer tools.close()
